@@ -59,6 +59,21 @@ def mark(cfg: Dict[str, Any]) -> Dict[str, Any]:
     return cfg
 
 
+def native(fn: Callable[..., Any], *a: Any, **k: Any) -> Any:
+    """Runs ``fn`` with CrossHair's tracing switched off. Only for sections
+    whose inputs have all been made concrete by earlier forks (CrossHair's
+    pure-Python json and copy are pathologically slow on concrete data); sound
+    precisely because no symbolic value enters them."""
+    try:
+        from crosshair.tracers import NoTracing, is_tracing  # type: ignore
+    except Exception:  # pragma: no cover
+        return fn(*a, **k)
+    if is_tracing():
+        with NoTracing():
+            return fn(*a, **k)
+    return fn(*a, **k)
+
+
 def pick(sym: Any, n: int) -> int:
     """Concrete int in [0, n) obtained by forking on a symbolic int. Values
     outside the range collapse onto n-1 (one path), so no precondition is
@@ -164,6 +179,8 @@ class Reach:
                 if k.startswith(("SET:", "GOTO:")):
                     events.append(k)
         self.events = events
+        self.hist_errors: List[str] = []
+        hist_parent_ids = [n.id for n in by_id.values() if any(c.type == "history" for c in n.states.values())]
         it = SyncInterpreter(self.machine).start()
         k0 = _state_key(it)
         self.witness: Dict[Any, List[str]] = {k0: []}
@@ -187,6 +204,16 @@ class Reach:
                     except XStateMachineError:
                         pass
                     k2 = _state_key(it)
+                    # the engine's record for a history parent that this step exited must be
+                    # exactly what was active below it (checked on every explored edge)
+                    for pid in hist_parent_ids:
+                        if pid in key[0] and pid not in k2[0]:
+                            want = sorted(i for i in key[0] if i != pid and model.is_desc(by_id[i], by_id[pid]))
+                            got = sorted(n.id for n in (it._history.get(pid) or []))
+                            if got != want and len(self.hist_errors) < 5:
+                                self.hist_errors.append(
+                                    f"start(); send{self.witness[key] + [e]}: history recorded for {pid} is {got}, "
+                                    f"active below it when it was exited: {want}")
                     if k2 in self.witness:
                         continue
                     self.witness[k2] = self.witness[key] + [e]
